@@ -8,8 +8,10 @@ package main
 //   marshal <body>                                           | <stream>
 //   read <maxsize> <terr> <reader> <oseed> <raw> <bad> <stream> | one token per UnmarshalFrom call until the first non-success
 // reader = bufio:<n> (a *bufio.Reader with buffer n) or plain (any other protodelim.Reader);
-// oseed seeds the model's arbitrary chunking oracle; raw=1: successful bodies are printed;
-// bad = '+'-joined bodies that proto.Unmarshal rejects ('-' = none).
+// oseed seeds the model's arbitrary chunking oracle; raw=1: the target is a capturing message
+// (see delimCapture): the exact bytes handed to Unmarshal are printed and a body is
+// rejected iff it starts with 0xff (the codec's verdict is a parameter of the model);
+// bad is unused ('-').
 
 import (
 	"bufio"
@@ -24,6 +26,7 @@ import (
 	"google.golang.org/protobuf/encoding/protowire"
 	"google.golang.org/protobuf/proto"
 	"google.golang.org/protobuf/reflect/protoreflect"
+	"google.golang.org/protobuf/runtime/protoiface"
 	"google.golang.org/protobuf/types/known/emptypb"
 
 	lazyopaquepb "google.golang.org/protobuf/internal/testprotos/lazy/lazy_opaque"
@@ -134,8 +137,10 @@ func delimClass(err error) string {
 		return fmt.Sprintf("big:%x:%x", tl.Size, tl.MaxSize)
 	case err != nil && err == protowire.ParseError(-3):
 		return "ovf"
-	case errors.Is(err, proto.Error):
+	case err == delimBodyErr:
 		return "bad"
+	case errors.Is(err, proto.Error):
+		return "perr"
 	default:
 		return "other"
 	}
@@ -162,40 +167,35 @@ func delimRun(r protodelim.Reader, max int64, newMsg func(i int) proto.Message, 
 	return append(classes, "runaway")
 }
 
-// delimWalk is the harness's reference framing; it only supplies the list of
-// bodies that proto.Unmarshal rejects (the codec's verdict is an input of the model).
-func delimWalk(stream []byte, max int64) (bad []string) {
-	seen := map[string]bool{}
-	for len(stream) > 0 {
-		k := len(stream)
-		if k > 10 {
-			k = 10
-		}
-		for i := 0; i < k; i++ {
-			if stream[i] < 0x80 {
-				k = i + 1
-				break
+// delimCapture is a proto.Message whose Unmarshal method records exactly the
+// bytes it is given and rejects bodies that start with 0xff; everything else is
+// delegated to an Empty message.  protodelim is generic in the message, so this
+// observes the framing without involving the real codec.
+type delimCapture struct {
+	protoreflect.Message
+	got   []byte
+	calls int
+}
+
+var delimBodyErr = errors.New("verif: body rejected")
+
+func newDelimCapture() *delimCapture {
+	return &delimCapture{Message: (&emptypb.Empty{}).ProtoReflect()}
+}
+func (d *delimCapture) ProtoReflect() protoreflect.Message      { return d }
+func (d *delimCapture) Interface() protoreflect.ProtoMessage    { return d }
+func (d *delimCapture) ProtoMethods() *protoiface.Methods {
+	return &protoiface.Methods{
+		Flags: protoiface.SupportUnmarshalDiscardUnknown,
+		Unmarshal: func(in protoiface.UnmarshalInput) (protoiface.UnmarshalOutput, error) {
+			d.calls++
+			d.got = append([]byte{}, in.Buf...)
+			if len(in.Buf) > 0 && in.Buf[0] == 0xff {
+				return protoiface.UnmarshalOutput{}, delimBodyErr
 			}
-		}
-		size, n := protowire.ConsumeVarint(stream[:k])
-		if n < 0 {
-			return
-		}
-		stream = stream[n:]
-		if size > delimEffMax(max) || size > uint64(len(stream)) {
-			return
-		}
-		body := stream[:size]
-		stream = stream[size:]
-		if proto.Unmarshal(body, &emptypb.Empty{}) != nil {
-			if h := HexB(body); !seen[h] {
-				seen[h] = true
-				bad = append(bad, h)
-			}
-			return
-		}
+			return protoiface.UnmarshalOutput{Flags: protoiface.UnmarshalInitialized}, nil
+		},
 	}
-	return
 }
 
 type delimFrame struct {
@@ -224,11 +224,6 @@ func delimEmitRead(c *Ctx, max int64, terr bool, kind delimReaderKind, raw bool,
 		}
 	}
 	bad := "-"
-	if raw {
-		if l := delimWalk(stream, max); len(l) > 0 {
-			bad = strings.Join(l, "+")
-		}
-	}
 	c.Case("delim", "read", []string{HexZ(max), Tok(terr), kind.model, HexN(c.U64() >> 32), Tok(raw), bad, HexB(stream)}, obs)
 }
 
@@ -244,14 +239,22 @@ func delimSource(stream []byte, terr bool, kind delimReaderKind) protodelim.Read
 	return kind.mk(src)
 }
 
-// raw reads: every body lands in the unknown fields of an Empty message
+// raw reads: the target captures exactly the bytes handed to Unmarshal
 func delimRawRead(c *Ctx, max int64, terr bool, kind delimReaderKind, stream []byte) []string {
 	var bodies [][]byte
+	var last *delimCapture
 	classes := delimRun(delimSource(stream, terr, kind), max,
-		func(int) proto.Message { return &emptypb.Empty{} },
+		func(int) proto.Message { last = newDelimCapture(); return last },
 		func(i int, m proto.Message) {
-			bodies = append(bodies, append([]byte{}, m.ProtoReflect().GetUnknown()...))
+			d := m.(*delimCapture)
+			if d.calls != 1 {
+				c.PropFail("C27", fmt.Sprintf("Unmarshal called %d times for one frame", d.calls), HexB(stream))
+			}
+			bodies = append(bodies, d.got)
 		})
+	if n := len(classes); n > 0 && classes[n-1] != "ok" && classes[n-1] != "bad" && last != nil && last.calls != 0 {
+		c.PropFail("C27", "Unmarshal was called although the frame is incomplete or refused: "+classes[n-1], HexZ(max), HexB(stream))
+	}
 	delimEmitRead(c, max, terr, kind, true, stream, classes, bodies)
 	return classes
 }
@@ -552,6 +555,9 @@ func delimMalformed(c *Ctx, g *wpiGen) {
 		switch c.Intn(4) {
 		case 0:
 			body = c.Bytes(c.Intn(12)) // mostly not a message
+			if len(body) > 0 && c.Intn(3) == 0 {
+				body[0] = 0xff // rejected by the capturing message
+			}
 		case 1:
 			body = nil
 		default:
